@@ -222,6 +222,46 @@ def addHeaders (width : Int) (ttl subtitle author email description : Str) (tuni
     else result
   result ++ [[], []]
 
+/-- the tuning a track of a composition is drawn on -/
+def tuningOf (o : Option (Str × Str × Tuning)) : Tuning := match o with | some x => x.2.2 | none => defaultTuning
+
+/-- one bar of one track inside a row of `from_Composition`: rendered, its quarter-mark line overlaid with `||` for every
+    track but the first, and glued to what the row already shows of this track -/
+def compBar (t : Tuning) (w : Int) (notfirst : Bool) (ascii : List Line) (bar : TBar) : Except Err (List Line) := do
+  let r ← fromBar t bar w
+  let barstart := find2 (r.getD 1 []) + 2
+  let r := if notfirst then
+      (match r with
+       | r0 :: rest => (r0.take (barstart - 2).toNat ++ lit "||" ++ r0.drop barstart.toNat) :: rest
+       | [] => [])
+    else r
+  pure (if ascii ≠ [] then glue ascii r barstart else ascii ++ r)
+
+/-- what one row shows of one track: its bars `barindex … barindex + bars − 1`, as far as they exist -/
+def compTrackRow (t : Tuning) (w : Int) (bars barindex : Nat) (trbars : List TBar) (notfirst : Bool) : Except Err (List Line) :=
+  (List.range bars).foldlM (fun (ascii : List Line) x =>
+    (trbars[barindex + x]?).elim (pure ascii) (compBar t w notfirst ascii)) []
+
+/-- one row: every track in turn, every track but the first preceded by two `||` lines (when it shows anything) -/
+def compRow (tracks : List (Option (Str × Str × Tuning) × List TBar)) (w : Int) (bars barindex : Nat) (result : List Line) :
+    Except Err (List Line × Bool) :=
+  tracks.foldlM (fun (acc : List Line × Bool) tr => do
+    let ascii ← compTrackRow (tuningOf tr.1) w bars barindex tr.2 acc.2
+    if acc.2 ∧ ascii ≠ [] then
+      let pad := find2 (ascii.getLast?.getD [])
+      pure (acc.1 ++ [rep ' ' pad ++ lit "||", rep ' ' pad ++ lit "||"] ++ ascii, true)
+    else pure (acc.1 ++ ascii, true)) (result, false)
+
+/-- the rows, `bars` bars per row, until every track is exhausted (fuel: the `while` loop) -/
+def compRows (tracks : List (Option (Str × Str × Tuning) × List TBar)) (w : Int) (bars maxlen : Nat) :
+    Nat → Nat → List Line → Except Err (List Line)
+  | 0, _, result => pure result
+  | fuel + 1, barindex, result =>
+    if barindex ≥ maxlen then pure result
+    else do
+      let r ← compRow tracks w bars barindex result
+      compRows tracks w bars maxlen fuel (barindex + bars) (r.1 ++ [[], [], []])
+
 /-- `from_Composition(composition, width)`: every track is drawn on its OWN tuning (given as (instrument, description,
     strings)), a track without one on the default tuning -/
 def fromComposition (ttl subtitle author email description : Str) (tracks : List (Option (Str × Str × Tuning) × List TBar))
@@ -233,32 +273,7 @@ def fromComposition (ttl subtitle author email description : Str) (tracks : List
   let bars := width / w
   let maxlen := tracks.foldl (fun m t => if t.2.length > m then t.2.length else m) 0
   if tracks = [] then .error .value            -- max() of an empty sequence
-  let rec rows (fuel : Nat) (barindex : Nat) (result : List Line) : Except Err (List Line) :=
-    match fuel with
-    | 0 => pure result
-    | fuel + 1 =>
-      if barindex ≥ maxlen then pure result
-      else do
-        let (result, _) ← tracks.foldlM (fun (acc : List Line × Bool) tr => do
-          let (result, notfirst) := acc
-          let ascii ← (List.range bars.toNat).foldlM (fun (ascii : List Line) x => do
-            match tr.2[barindex + x]? with
-            | none => pure ascii
-            | some bar => do
-              let r ← fromBar (match tr.1 with | some x => x.2.2 | none => defaultTuning) bar w
-              let barstart := find2 (r.getD 1 []) + 2
-              let r := if notfirst then
-                  (match r with
-                   | r0 :: rest => (r0.take (barstart - 2).toNat ++ lit "||" ++ r0.drop barstart.toNat) :: rest
-                   | [] => [])
-                else r
-              pure (if ascii ≠ [] then glue ascii r barstart else ascii ++ r)) []
-          if notfirst ∧ ascii ≠ [] then
-            let pad := find2 (ascii.getLast?.getD [])
-            pure (result ++ [rep ' ' pad ++ lit "||", rep ' ' pad ++ lit "||"] ++ ascii, true)
-          else pure (result ++ ascii, true)) (result, false)
-        rows fuel (barindex + bars.toNat) (result ++ [[], [], []])
   if bars ≤ 0 then .error .hang
-  rows (maxlen + 1) 0 header
+  compRows tracks w bars.toNat maxlen (maxlen + 1) 0 header
 
 end Mingus.Tab
